@@ -114,6 +114,17 @@ def apply_op(g, m, op, counter):
                 g.extend(rs)
             else:
                 g += rs
+        elif k == 'setitem_equal_copy':
+            # a row that compares equal to the one in place but is another object (holding True where the old one may hold 1): a list stores it
+            try:
+                old = m.rows[op['index']]
+                r = dict((kk, (True if (vv == 1 and not isinstance(vv, bool)) else vv)) for kk, vv in old.items())
+                m.rows[op['index']] = r
+                want = ('ok', None)
+            except IndexError:
+                r = {'n': 1}
+                want = ('exc', 'IndexError')
+            g[op['index']] = r
         elif k == 'setitem':
             r = newrow(op.get('id'))
             try:
@@ -254,6 +265,16 @@ def run_history(init_ids, ops, build_index, check='both', version=None):
             f = check_lookup(s, ms, keys)
             if f:
                 return i, 'sliced grid after %r: %s' % (op, f)
+            # a grid and its full copy are two grids: a row put into one is not found through the other
+            c = g[:]
+            mc = Model()
+            mc.rows = list(m.rows)
+            extra = {'id': 'only-in-the-copy', 'n': -1}
+            c.append(extra)
+            mc.rows.append(extra)
+            f = check_lookup(g, m, keys + ['only-in-the-copy']) or check_lookup(c, mc, keys + ['only-in-the-copy'])
+            if f:
+                return i, 'after %r, then appending a row to the full slice g[:]: %s' % (op, f)
     return None
 
 
@@ -265,6 +286,8 @@ def alphabet():
             ops.append({'op': 'insert', 'index': i, 'id': s})
         for i in (0, -1, 3):
             ops.append({'op': 'setitem', 'index': i, 'id': s})
+    for i in (0, -1):
+        ops.append({'op': 'setitem_equal_copy', 'index': i})
     for i in (0, 1, -1, 4):
         ops.append({'op': 'delitem', 'index': i})
         ops.append({'op': 'pop', 'index': i})
